@@ -9,6 +9,7 @@ import (
 	"math/rand"
 	"sort"
 	"sync"
+	"sync/atomic"
 	"testing"
 	"time"
 
@@ -28,13 +29,16 @@ type rtCase struct {
 	FailAt     int // the handler fails at its FailAt-th invocation (0: never)
 	SplitAt    int // a split happens inside the SplitAt-th handler invocation (0: never)
 	SplitKey   string
+	Merge      bool // mocktikv: merge the region of SplitKey with its right neighbour instead
 }
 
 func (c rtCase) String() string {
-	return fmt.Sprintf("%s/regions=%d/[%q,%q)/rpt=%d/conc=%d/fail@%d/split@%d", c.Backend, c.Regions, c.Start, c.End, c.RPT, c.Conc, c.FailAt, c.SplitAt)
+	return fmt.Sprintf("%s/regions=%d/[%q,%q)/rpt=%d/conc=%d/fail@%d/split@%d/merge=%v", c.Backend, c.Regions, c.Start, c.End, c.RPT, c.Conc, c.FailAt, c.SplitAt, c.Merge)
 }
 
 var errHandler = errors.New("verif: handler failure")
+
+var merges atomic.Int64
 
 // checkCover reports how the recorded sub-ranges fail to be consecutive, non-overlapping and an exact cover of [start,end).
 func checkCover(got []kv.KeyRange, start, end string) (string, string) {
@@ -97,7 +101,13 @@ func runRangeTask(r *vrep.Report, u *uni.Universe, c *uni.ClientStore, lay *layo
 		sumFailed += st.FailedRegions
 		mu.Unlock()
 		if cs.SplitAt != 0 && n == cs.SplitAt {
-			lay.split(cs.SplitKey)
+			if cs.Merge {
+				if u.MergeAt([]byte(cs.SplitKey)) {
+					merges.Add(1)
+				}
+			} else {
+				lay.split(cs.SplitKey)
+			}
 		}
 		if fail {
 			return st, errHandler
@@ -225,11 +235,13 @@ func TestVerifC14RangeTask(t *testing.T) {
 				if rng.Intn(6) == 0 && len(borders) < 45 {
 					cs.SplitAt = 1 + rng.Intn(3)
 					cs.SplitKey = rk(rng)
+					cs.Merge = be == uni.Mock && rng.Intn(3) == 0
 				}
 				runRangeTask(r, u, c, lay, cs)
 			}
 		}
 		r.Count("layout_splits", lay.splits)
+		r.Count("merges_inside_handlers", int(merges.Swap(0)))
 		r.Flush()
 		u.Close()
 	}
